@@ -89,7 +89,14 @@ func NewAmount(f float64) (Amount, error) {
 // ToUnit converts a monetary amount counted in bitcoin base units to a
 // floating point value representing an amount of bitcoin.
 func (a Amount) ToUnit(u AmountUnit) float64 {
-	return float64(a) / math.Pow10(int(u+8))
+	// A power of ten is only exact as a float64 when its exponent is not
+	// negative, so units smaller than a satoshi are scaled by multiplying
+	// with 10^-(u+8) instead of dividing by the inexact 10^(u+8).
+	exp := int(u + 8)
+	if exp < 0 {
+		return float64(a) * math.Pow10(-exp)
+	}
+	return float64(a) / math.Pow10(exp)
 }
 
 // ToBCH is the equivalent of calling ToUnit with AmountBCH.
